@@ -642,7 +642,8 @@ def interp1d(
             else:
                 result = np.broadcast_to(y, (len(np.atleast_1d(input_var)),))
 
-            if not isinstance(input_var, np.ndarray):
+            if np.ndim(input_var) == 0:
+                # a scalar (lists and arrays of positions give one row each);
                 # the output of scipy's interp1d is always an array
                 result = np.array(result[0])
 
